@@ -70,6 +70,9 @@ func (p *c13prop) Plan(tier string, seed int64) []core.Segment {
 		segs = append(segs, core.Segment{Kind: "manyresets:" + t, N: 6 * tierScale(tier, 6), Chunk: 2})
 		// a WrappedParser reused after a first stream of 0.3-1 MiB
 		segs = append(segs, core.Segment{Kind: "bigwrapreset:" + t, N: 4 * tierScale(tier, 6), Chunk: 1})
+		// the caller refills the slice the parser uses directly and hands it
+		// over again
+		segs = append(segs, core.Segment{Kind: "refill:" + t, N: 600 * m})
 		// the old life ends and the new one begins with a reader that has
 		// nothing for 50-99 calls in a row
 		segs = append(segs, core.Segment{Kind: "stallreset:" + t, N: 200 * m})
@@ -223,6 +226,35 @@ func (p *c13prop) Gen(kind string, idx int64, seed int64, tier string) core.Case
 				cc.H2 = append(cc.H2, POp{K: "parse", A: r.Intn(2)})
 			}
 			cc.H2 = append(cc.H2, POp{K: "write", B: 20 + r.Intn(100)}, POp{K: "parse"}, POp{K: "parse"}, POp{K: "parse"})
+			return core.MkCase(p.id, kind, idx, seed, tier, cc)
+		}
+		if class == "refill" {
+			// old life: Reset(x) with a slice that has the margin, parsed; new
+			// life: x refilled with other bytes of the same (or a smaller)
+			// length and handed over again
+			if c.BufferSize < 64 {
+				c.BufferSize = 64 + r.Intn(400)
+				c.ShrinkSize = r.Intn(c.BufferSize)
+			}
+			cc.Cfg = c
+			l1 := 20 + r.Intn(c.BufferSize-20)
+			extra := 1 + 3*r.Intn(7)
+			fam := []string{"rand2", "rand3", "tworuns", "text", "lzsynth"}[r.Intn(5)]
+			cc.S1 = gen.Family(r, fam, l1+200, c.Hint())
+			cc.S2 = gen.Family(r, fam, l1+200, c.Hint())
+			cc.H1 = []POp{{K: "reset", A: 2, B: l1, C: extra}}
+			for i := 0; i < 2+l1/(c.BlockSize+1) && i < 40; i++ {
+				cc.H1 = append(cc.H1, POp{K: "parse", A: r.Intn(2)})
+			}
+			l2 := l1
+			if r.Intn(3) == 0 {
+				l2 = 1 + r.Intn(l1)
+			}
+			cc.H2 = []POp{{K: "reset", A: 6, B: l2, C: extra}}
+			for i := 0; i < 2+l2/(c.BlockSize+1) && i < 40; i++ {
+				cc.H2 = append(cc.H2, POp{K: "parse", A: r.Intn(2)})
+			}
+			cc.H2 = append(cc.H2, POp{K: "write", B: 1 + r.Intn(60)}, POp{K: "parse"}, POp{K: "parse"})
 			return core.MkCase(p.id, kind, idx, seed, tier, cc)
 		}
 		if class == "stallreset" {
@@ -787,7 +819,7 @@ func (p *c13prop) Run(c *core.Case, st *core.Stats) []core.Violation {
 	}
 	main := &PCase{Cfg: cc.Cfg, Stream: cc.S2, Ops: cc.H2}
 	var pre *PCase
-	if class == "reset" || class == "zerostart" || class == "margin" || class == "ntlreset" || class == "bighash" || class == "manyresets" || class == "stallreset" {
+	if class == "reset" || class == "zerostart" || class == "margin" || class == "ntlreset" || class == "bighash" || class == "manyresets" || class == "stallreset" || class == "refill" {
 		pre = &PCase{Cfg: cc.Cfg, Stream: cc.S1, Ops: cc.H1}
 	}
 	// run A hands slices to Reset whose spare capacity holds garbage, run B
